@@ -1391,10 +1391,10 @@ IW_INLINE WUR iwrc _sblk_destroy(struct iwlctx *lx, struct sblk **sblkp) {
         rc = fsm->deallocate(fsm, paddr, SBLK_PAGE_SZ_V2);
       } else {
         memset(mm + sblk->addr + SOFF_BPOS_U1_V2, 0, 1);
-        fsm->release_mmap(fsm);
-        if (dlsnr) {
-          dlsnr->onset(dlsnr, sblk->addr + SOFF_BPOS_U1_V2, 0, 1, 0);
+        if (dlsnr) { // log the byte while the mapping is still pinned: a remap in between would drop the unlogged store
+          rc = dlsnr->onset(dlsnr, sblk->addr + SOFF_BPOS_U1_V2, 0, 1, 0);
         }
+        fsm->release_mmap(fsm);
       }
     }
 
